@@ -332,6 +332,15 @@ RESTART:
 		return tmconsensus.HandleProposedHeaderBadSignature
 	}
 
+	// The proposed header must build on the block we are committing.
+	// The kernel leaves PrevBlockHash empty for the initial height.
+	if ph.Header.Height > m.initialHeight &&
+		!bytes.Equal(checkResp.PrevBlockHash, ph.Header.PrevBlockHash) {
+		// There is no dedicated result for this yet;
+		// like a bad block hash, this message should not be on the network.
+		return tmconsensus.HandleProposedHeaderBadBlockHash
+	}
+
 	// Now, make sure that the proposed header's PrevCommitProof matches
 	// what we think the previous commit is supposed to be.
 	// The easiest thing to check first is the validator hash.
